@@ -13,12 +13,12 @@ CONFIG = {
         "go/types Sizes(gc, amd64) for the BoardHeaderRaw layout; cross-checked against unsafe.Offsetof/Sizeof and the compiled constants by the `layout` op",
     ],
     "modelled": ["ptt.NewBoard", "ptt.groupOp", "ptt.is_uBM", "ptt.mNewbrd", "ptt.addBoardRecord", "ptt.LoadBoardSummary (its write to Shm.BCache)",
-                 "ptt.IsBMCache", "bbs.CreateBoard (wrapper)", "bbs.UUserID.ToRaw", "ptt.InitCurrentUser (record + SYSOP/guest levels)", "cache.GetBid", "cache.getBidByNameCore", "cache.ResetBoard", "cache.buildBMCache", "cache.ParseBMList",
+                 "ptt.IsBMCache", "the BBusyState branches of cache.ResetBoard / SortBCache / getBidByNameCore (flag held for a whole request)", "bbs.CreateBoard (wrapper)", "bbs.UUserID.ToRaw", "ptt.InitCurrentUser (record + SYSOP/guest levels)", "cache.GetBid", "cache.getBidByNameCore", "cache.ResetBoard", "cache.buildBMCache", "cache.ParseBMList",
                  "cache.SanitizeBMs", "cache.AddbrdTouchCache", "cache.SortBCache", "ptttype.BoardID_t.IsValid", "ptttype.NewBM",
                  "types.Cstrcmp", "types.Cstrcasecmp", "cmsys.SubstituteRecord", "cmsys.AppendRecord"],
     "assumptions": [
         "the theorems are stated for well-formed states: .BRD holds exactly BNumber <= MAX_BOARD complete records, the shared copy equals the records up to FirstChild (and the post-mask bit of hidden boards), both indexes are sorted permutations, occupied names are pairwise distinct up to letter case; other tables (torn tail, more than MAX_BOARD records, duplicate names) are compared with the model, not judged",
-        "single process: BBusyState and BusyStateB are 0 (the busy branches of ResetBoard/SortBCache/GetBid are not modelled)",
+        "the theorems are for BBusyState = 0; a request served while another process holds Shm.BBusyState is mirrored (newBoardBusy) and driven (`busy on|off|<ms>`) for the correspondence only; BusyStateB stamps are 0",
         "no hidden-board friend list names the caller for the slot of a new board (Shm.Hbfl empty; a new board has no `visible` file and, since 1b78546, HbflReload empties the list when the file is gone)",
         "ptt.is_uBM is the model of property C07 (Model/C07.lean, imported; Gen/Perm and Gen/ReadEntryPoints are regenerated with it); group_operator_sound uses C07's is_uBM_sound; moderator strings are made of ids and '/' (junk separators are C07's business)",
         "configuration: ptttype.DEFAULT_AUTOCPLOG is the only package variable the creation rules consult; it is part of every request line and driven in both values (set in-process around the call, restored)",
